@@ -47,6 +47,15 @@ Lemma cef_eattrs r : eattrs (complete_edges_from_faces r) =
            (with_hard (eattrs r) (zlen (edges r))).
 Proof. unfold complete_edges_from_faces. destruct (isnil (faces r)); reflexivity. Qed.
 
+(* prepare_vertices touches only the vertices, and keeps their number *)
+Lemma pv_vertices r : vertices (prepare_vertices r) = map prep_vertex (vertices r). Proof. reflexivity. Qed.
+Lemma pv_nverts r : zlen (vertices (prepare_vertices r)) = zlen (vertices r).
+Proof. unfold zlen. cbn. now rewrite map_length. Qed.
+Lemma pv_edges r : edges (prepare_vertices r) = edges r. Proof. reflexivity. Qed.
+Lemma pv_eattrs r : eattrs (prepare_vertices r) = eattrs r. Proof. reflexivity. Qed.
+Lemma pv_faces r : faces (prepare_vertices r) = faces r. Proof. reflexivity. Qed.
+Lemma pv_cells r : cells (prepare_vertices r) = cells r. Proof. reflexivity. Qed.
+
 (* prepare_edges touches only edges and their attributes *)
 Lemma pe_vertices r : vertices (prepare_edges r) = vertices r. Proof. step_proj prepare_edges. Qed.
 Lemma pe_faces r : faces (prepare_edges r) = faces r. Proof. step_proj prepare_edges. Qed.
@@ -99,7 +108,8 @@ Qed.
 
 (* ------------------------------------------------------------ prepare() is this composition (order from Gen.prepare_steps) *)
 Definition stage1 (c : cfg) (r : raw) : raw := if fst c then complete_faces_from_cells r else r.
-Definition stage2 (c : cfg) (r : raw) : raw := if snd c then complete_edges_from_faces (stage1 c r) else stage1 c r.
+Definition stage2 (c : cfg) (r : raw) : raw :=
+  prepare_vertices (if snd c then complete_edges_from_faces (stage1 c r) else stage1 c r).
 Definition stage5 (c : cfg) (r : raw) : raw :=
   generate_cell_corners (generate_face_corners (prepare_edges (stage2 c r))).
 
@@ -117,12 +127,14 @@ Lemma stage1_eattrs c r : eattrs (stage1 c r) = eattrs r.
 Proof. unfold stage1; destruct (fst c); [apply cfc_eattrs | reflexivity]. Qed.
 Lemma stage1_cells c r : cells (stage1 c r) = cells r.
 Proof. unfold stage1; destruct (fst c); [apply cfc_cells | reflexivity]. Qed.
-Lemma stage2_vertices c r : vertices (stage2 c r) = vertices r.
-Proof. unfold stage2; destruct (snd c); [rewrite cef_vertices|]; apply stage1_vertices. Qed.
+Lemma stage2_vertices c r : vertices (stage2 c r) = map prep_vertex (vertices r).
+Proof. unfold stage2; rewrite pv_vertices; destruct (snd c); [rewrite cef_vertices|]; now rewrite stage1_vertices. Qed.
+Lemma stage2_nverts c r : zlen (vertices (stage2 c r)) = zlen (vertices r).
+Proof. rewrite stage2_vertices. unfold zlen. now rewrite map_length. Qed.
 Lemma stage2_faces c r : faces (stage2 c r) = faces (stage1 c r).
-Proof. unfold stage2; destruct (snd c); [apply cef_faces | reflexivity]. Qed.
+Proof. unfold stage2; rewrite pv_faces; destruct (snd c); [apply cef_faces | reflexivity]. Qed.
 Lemma stage2_cells c r : cells (stage2 c r) = cells r.
-Proof. unfold stage2; destruct (snd c); [rewrite cef_cells|]; apply stage1_cells. Qed.
+Proof. unfold stage2; rewrite pv_cells; destruct (snd c); [rewrite cef_cells|]; apply stage1_cells. Qed.
 
 (* the faces completed from the cells, and the face sides added to the edges *)
 Definition added_faces (c : cfg) (r : raw) : list (list Z) :=
@@ -144,13 +156,13 @@ Definition added_edges (c : cfg) (r : raw) : list edge :=
 
 Lemma stage2_edges c r : edges (stage2 c r) = edges r ++ added_edges c r.
 Proof.
-  unfold stage2, added_edges. destruct (snd c); cbn.
+  unfold stage2, added_edges. rewrite pv_edges. destruct (snd c); cbn.
   - rewrite cef_edges, stage1_edges, stage1_faces, isnil_nonempty. now destruct (nonempty _).
   - now rewrite stage1_edges, app_nil_r.
 Qed.
 
 Lemma prepare_fields c r r' : prepare c r = Ok r' ->
-  vertices r' = vertices r /\ cells r' = cells r /\ faces r' = faces r ++ added_faces c r /\
+  vertices r' = map prep_vertex (vertices r) /\ cells r' = cells r /\ faces r' = faces r ++ added_faces c r /\
   edges r' = filter (evalid (zlen (vertices r))) (map kedge (edges r ++ added_edges c r)).
 Proof.
   rewrite prepare_unfold. intros H. apply gcf_fields in H.
@@ -158,6 +170,6 @@ Proof.
   rewrite gcc_vertices, gfc_vertices, pe_vertices, stage2_vertices in Hv.
   rewrite gcc_cells, gfc_cells, pe_cells, stage2_cells in Hc.
   rewrite gcc_faces, gfc_faces, pe_faces, stage2_faces, stage1_faces in Hf.
-  rewrite gcc_edges, gfc_edges, pe_edges, stage2_vertices, stage2_edges in He.
+  rewrite gcc_edges, gfc_edges, pe_edges, stage2_nverts, stage2_edges in He.
   auto.
 Qed.
